@@ -421,6 +421,9 @@ for _fn, _do, _undo in (("add_cons_vars_to_problem", "add", "remove"), ("remove_
         Case("no_context", requires=lambda E: z3.Not(_cv_ctx(E)), ensures=_cv_post(_do, _undo, False)),
         Case("in_context", requires=_cv_ctx, ensures=_cv_post(_do, _undo, True)),
     ], pre=lambda E: _ctx_nonnull(Env({"obj": E["model"]}, E.s0, eng=E.eng)), key=_fn,
-        modifies=lambda E: [("ghost", "trace", lambda st: ())]))
+        modifies=lambda E: [("ghost", "trace", lambda st: ())],
+        note="`what` is ONE object that is not an optlang Variable (a constraint): the path on which remove_cons_vars_from_problem "
+             "records nothing but the inverse solver call. Lists, and the column bookkeeping for removed VARIABLES (restore_columns, "
+             "added by /repo 902ed3f), are outside this contract and are exercised by the bounded driver only"))
 
 ALL_HOOKS = chain_hooks(HOOKS, {"call_method": reset_on_ref}, {"call_method": solver_call_hook})
